@@ -160,7 +160,13 @@ def run_doc(ctx: Ctx, unions: list[dict], n: int, only=None) -> None:
                 rid = f"{u['name']}-broken"
                 rts.append({"id": rid, "model": u["name"], "json": bad})
                 meta[rid] = {"u": u, "kind": "broken", "payload": bad, "variant": v, "pos": "as_alias"}
-    if only:
+    # second pass in REVERSE order inside the same interpreter: decoding must not depend on what was decoded before (a
+    # payload of a general variant first, then one of a more specific variant)
+    for r in list(reversed(rts)):
+        rid = r["id"] + "-rev"
+        rts.append(dict(r, id=rid))
+        meta[rid] = dict(meta[r["id"]], second_pass=True)
+    if only and not only.endswith("-rev"):
         rts = [r for r in rts if r["id"] == only]
     job = {"root": str(root), "packages": [{"pkg": pkg, "core": pkg + ".core"}], "actions": ["roundtrips"], "roundtrips": rts}
     out = genrun.run_probe(job, root / "probe")
@@ -182,9 +188,11 @@ def run_doc(ctx: Ctx, unions: list[dict], n: int, only=None) -> None:
             feats.append("earlier_variant_accepts_payload")
             rec.count("cases_earlier_variant_accepts")
         if m.get("others"):
-            # the effective variant order is not even the declared one: `Alias | None` goes through typing's Union cache,
-            # which is keyed by set-equality, so a union with the same members declared elsewhere in another order decides
+            # (diagnostic only: a later variant would accept the payload as well.  Documents never contain two unions with
+            # the same member set, so typing's Union cache - keyed by set-equality - cannot impose another union's order)
             feats.append("another_variant_accepts_payload")
+        if m.get("second_pass"):
+            feats.append("second_pass_reverse_order")
         if u.get("disc"):
             feats.append("discriminated")
         if m["kind"] == "unmapped":
@@ -221,9 +229,18 @@ def run_shard(ctx: Ctx) -> None:
     common.use_repo()
     us = all_unions(ctx)
     mine = [u for i, u in enumerate(us) if ctx.mine(i)]
-    step = 25
-    for k in range(0, len(mine), step):
-        run_doc(ctx, mine[k:k + step], ctx.shard * 1000 + k)
+    # one document never holds two unions over the same SET of variants (see the Union-cache note in run_doc)
+    docs: list[list[dict]] = []
+    for u in mine:
+        key = frozenset(u["variants"])
+        for dset in docs:
+            if len(dset) < 25 and all(frozenset(x["variants"]) != key for x in dset):
+                dset.append(u)
+                break
+        else:
+            docs.append([u])
+    for k, dset in enumerate(docs):
+        run_doc(ctx, dset, ctx.shard * 1000 + k)
 
 
 def replay(ctx: Ctx, file: dict) -> None:
